@@ -79,6 +79,11 @@ pub struct HCase {
     /// usual "no VERSION_1, nothing above bit 31"
     #[serde(default)]
     pub legacy_raw_offer: bool,
+    /// the device refuses the accepted feature subset: FEATURES_OK never reads back as set. A
+    /// driver may go on regardless or give up (then DRIVER_OK must never be written); whatever it
+    /// reads, the status values it *writes* must still follow the initialisation sequence.
+    #[serde(default)]
+    pub refuse_features_ok: bool,
 }
 
 /// Run a short usage script of the driver on its reference device (the per-driver checks carry
@@ -100,7 +105,7 @@ pub fn usage(c: &HCase, st: &mut Stats) -> Result<(), String> {
             st,
         ),
         D::Console => c15::check(
-            &c15::KCase { kind: c.kind, offered: c.offered, policy: c.policy, chunks: vec![5, 3, 4, 2], ops: vec![c15::KOp::Size, c15::KOp::Emerg(0x41), c15::KOp::Send(0x42), c15::KOp::SendBytes(7), c15::KOp::Deliver, c15::KOp::Read(8), c15::KOp::Deliver, c15::KOp::FillConsume(65535), c15::KOp::Read(2), c15::KOp::Fmt(1, 0x1234), c15::KOp::Recv(true)] },
+            &c15::KCase { kind: c.kind, offered: c.offered, policy: c.policy, chunks: vec![5, 3, 4, 2], ops: vec![c15::KOp::Size, c15::KOp::Emerg(0x41), c15::KOp::Send(0x42), c15::KOp::SendBytes(7), c15::KOp::Deliver, c15::KOp::Read(8), c15::KOp::Deliver, c15::KOp::FillConsume(65535), c15::KOp::Read(2), c15::KOp::Fmt(1, 0x1234), c15::KOp::Recv(true), c15::KOp::FmtFail((c.offered >> 28) as u8 & 1, 0x2345)] },
             st,
         ),
         D::Gpu => c20::check(
@@ -154,7 +159,7 @@ pub fn usage(c: &HCase, st: &mut Stats) -> Result<(), String> {
                     streams: 2,
                     jacks: 1,
                     chmaps: 1,
-                    ops: vec![c20::SOp::SetParams { stream: 0, periods: 1, period: 63, channels: 2, format: 1, rate: 2 }, c20::SOp::Prepare(0), c20::SOp::Start(0), c20::SOp::Xfer { stream: 0, len: 200, lag: 2 }, c20::SOp::Stop(0)],
+                    ops: vec![c20::SOp::SetParams { stream: 0, periods: 1, period: 63, channels: 2, format: 1, rate: 2 }, c20::SOp::Prepare(0), c20::SOp::Start(0), c20::SOp::Xfer { stream: 0, len: 200, lag: 2 }, c20::SOp::Xfer { stream: 0, len: 8 * 32 + 7, lag: 0 }, c20::SOp::Xfer { stream: 0, len: 8 * 33 + 7, lag: 200 }, c20::SOp::Xfer { stream: 0, len: 8 * 10 + 7, lag: 3 }, c20::SOp::Stop(0)],
                 },
             },
             st,
@@ -173,6 +178,12 @@ const FEATURES_OK: u32 = 8;
 
 /// The ordered-trace automaton of §3.1.1 "Device Initialization".
 pub fn automaton(ev: &[Ev], offered: u64, supported: u64) -> Result<u64, String> {
+    automaton_ext(ev, offered, supported, false).map(|(w, _)| w)
+}
+
+/// `may_give_up`: the handshake may stop before DRIVER_OK (a driver that notices the device's
+/// refusal), optionally setting FAILED. Returns the accepted features and whether DRIVER_OK was reached.
+pub fn automaton_ext(ev: &[Ev], offered: u64, supported: u64, may_give_up: bool) -> Result<(u64, bool), String> {
     #[derive(PartialEq, Debug, Clone, Copy)]
     enum S {
         Start,
@@ -192,7 +203,8 @@ pub fn automaton(ev: &[Ev], offered: u64, supported: u64) -> Result<u64, String>
             Ev::Status(v) => {
                 let v = *v;
                 s = match (s, v) {
-                    (S::Running, 0) => return Ok(written), // teardown
+                    (S::Running, 0) => return Ok((written, true)), // teardown
+                    (st, v) if may_give_up && st != S::Running && v & 0x80 != 0 && v & DRIVER_OK == 0 => st, // FAILED
                     (_, 0) => S::Reset,
                     (S::Reset, v) if v & (FEATURES_OK | DRIVER_OK) == 0 && v & ACK != 0 => {
                         if v & DRIVER != 0 {
@@ -252,21 +264,31 @@ pub fn automaton(ev: &[Ev], offered: u64, supported: u64) -> Result<u64, String>
         }
     }
     let _ = queues;
-    if s != S::Running && s != S::Start {
+    if s != S::Running && s != S::Start && !may_give_up {
         return Err(format!("initialisation never reached DRIVER_OK (ended in state {:?})", s));
     }
-    Ok(written)
+    Ok((written, s == S::Running))
 }
 
 pub fn check(c: &HCase, st: &mut Stats) -> Result<(), String> {
     crate::props::drv::LEGACY_RAW_OFFER.with(|f| f.set(c.legacy_raw_offer));
+    crate::props::drv::REFUSE_FEATURES_OK.with(|f| f.set(c.refuse_features_ok));
     let r = usage(c, st);
     crate::props::drv::LEGACY_RAW_OFFER.with(|f| f.set(false));
+    crate::props::drv::REFUSE_FEATURES_OK.with(|f| f.set(false));
     let (ev, offered) = with(|w| (w.dev.ev.clone(), 0u64));
     let _ = offered;
     // what the device really offered (legacy transports mask VERSION_1 and the high word)
     let eff = if c.kind.legacy() && !c.legacy_raw_offer { c.offered & !(1 << 32) & 0xffff_ffff } else { c.offered };
-    let written = automaton(&ev, eff, c.drv.supported() | c.drv.passive()).map_err(|m| format!("{:?} on {:?} offered {:#x}: {}", c.drv, c.kind, c.offered, m))?;
+    let (written, running) = automaton_ext(&ev, eff, c.drv.supported() | c.drv.passive(), c.refuse_features_ok).map_err(|m| format!("{:?} on {:?} offered {:#x}{}: {}", c.drv, c.kind, c.offered, if c.refuse_features_ok { " (device does not keep FEATURES_OK set)" } else { "" }, m))?;
+    if c.refuse_features_ok {
+        st.class("device_refuses_features_ok");
+        if !running {
+            // the driver gave up before DRIVER_OK: nothing further to judge
+            st.class("driver_gave_up_on_refused_features");
+            return Ok(());
+        }
+    }
     // the usage phase (feature-gated behaviour judged by the reference device)
     if let Err(m) = r {
         // an early notification is reported by the automaton above; everything else is the usage phase's finding
@@ -297,16 +319,19 @@ pub fn grid() -> Vec<HCase> {
                     }
                 }
                 // plain subset, and the subset together with unsupported noise bits
-                v.push(HCase { drv, kind, offered: f, policy: Serve::OnNotify, legacy_raw_offer: false });
+                v.push(HCase { drv, kind, offered: f, policy: Serve::OnNotify, legacy_raw_offer: false, refuse_features_ok: false });
                 let noise = (0x00c0_1f00_0000_4000u64 | 1 << 34 | 1 << 38 | 1 << 39 | 1 << 35 | 1 << 27) & !drv.supported();
-                v.push(HCase { drv, kind, offered: f | noise, policy: if m % 2 == 0 { Serve::Late(1) } else { Serve::Poll }, legacy_raw_offer: false });
+                v.push(HCase { drv, kind, offered: f | noise, policy: if m % 2 == 0 { Serve::Late(1) } else { Serve::Poll }, legacy_raw_offer: false, refuse_features_ok: false });
             }
-            v.push(HCase { drv, kind, offered: u64::MAX, policy: Serve::OnNotify, legacy_raw_offer: false });
+            v.push(HCase { drv, kind, offered: u64::MAX, policy: Serve::OnNotify, legacy_raw_offer: false, refuse_features_ok: false });
+            for offered in [drv.supported(), 0, u64::MAX] {
+                v.push(HCase { drv, kind, offered, policy: Serve::OnNotify, legacy_raw_offer: false, refuse_features_ok: true });
+            }
             if kind.legacy() {
                 // legacy-interface devices that offer the upper feature word anyway
                 for hi in [1u64 << 32, 1 << 33, 1 << 32 | 1 << 33, 1 << 32 | 1 << 28 | 1 << 29] {
-                    v.push(HCase { drv, kind, offered: hi | (drv.supported() & 0xffff_ffff & !(1 << 28 | 1 << 29)), policy: Serve::OnNotify, legacy_raw_offer: true });
-                    v.push(HCase { drv, kind, offered: hi, policy: Serve::Late(1), legacy_raw_offer: true });
+                    v.push(HCase { drv, kind, offered: hi | (drv.supported() & 0xffff_ffff & !(1 << 28 | 1 << 29)), policy: Serve::OnNotify, legacy_raw_offer: true, refuse_features_ok: false });
+                    v.push(HCase { drv, kind, offered: hi, policy: Serve::Late(1), legacy_raw_offer: true, refuse_features_ok: false });
                 }
             }
         }
@@ -315,7 +340,7 @@ pub fn grid() -> Vec<HCase> {
 }
 
 fn strategy() -> impl Strategy<Value = HCase> {
-    (0usize..11, 0usize..5, any::<u64>(), any::<u64>(), crate::props::drv::serve_strategy()).prop_map(|(d, k, a, b, policy)| HCase { drv: ALL_D[d], kind: ALL_TK[k], offered: a & b | (a & (1 << 32)), policy, legacy_raw_offer: b >> 61 == 0 })
+    (0usize..11, 0usize..5, any::<u64>(), any::<u64>(), crate::props::drv::serve_strategy()).prop_map(|(d, k, a, b, policy)| HCase { drv: ALL_D[d], kind: ALL_TK[k], offered: a & b | (a & (1 << 32)), policy, legacy_raw_offer: b >> 61 == 0, refuse_features_ok: b >> 57 & 7 == 0 })
 }
 
 pub fn replay(_e: &str, case: &serde_json::Value) -> Result<(), String> {
